@@ -81,9 +81,7 @@ def check_iter(case):
 
     def step(x):
         got_args.append(np.array(x, dtype=float, copy=True))
-        if len(got_args) > len(xs):
-            raise RuntimeError("script exhausted: step called %d times with maxiter=%d" % (len(got_args), maxiter))
-        return xs[len(got_args) - 1].copy()
+        return xs[min(len(got_args), len(xs)) - 1].copy()      # calls beyond maxiter are counted and reported below
 
     kw = {}
     if use_x0:
@@ -106,6 +104,8 @@ def check_iter(case):
         return [("iter:exception:%s:%s" % (tag, type(e).__name__), "%s raised %r" % (call, e))]
     first = pat.index(1) + 1 if 1 in pat else None
     want_calls = first if first is not None else maxiter
+    if len(got_args) > maxiter:
+        return [("iter:calls:%s:beyond-maxiter" % tag, "%s called step %d times" % (call, len(got_args)))]
     if first is not None:
         if not (its == first):
             kind = "early" if (its != float("inf") and its < first) else "late"
@@ -131,7 +131,7 @@ def check_iter(case):
 # solve_hmultigrid
 # ----------------------------------------------------------------------------------------------------
 
-HMG_SETTINGS = ((1e-8, 500), (1e-8, 2), (1e-1, 1))
+HMG_SETTINGS = ((1e-8, 100), (1e-8, 2), (1e-1, 1))
 
 
 def check_hmg(case):
